@@ -3,6 +3,8 @@
 From Coq Require Import List NArith Bool Arith.
 Import ListNotations.
 From Verif Require Import Facts_vm FramesM FramesCodec Frames_proofs Frames_lifo Frames_sim Frames_term.
+From Verif Require Import Facts_vmrun VmRunM VmRun_proofs.
+Close Scope N_scope.
 
 (* Full statement: on every action tree (calls, defers of interpreted and
    native functions, native functions that call back a Scriggo function value,
@@ -193,6 +195,21 @@ Theorem C12_callback_returns_to_caller :
   forall s sv rest, souter s = sv :: rest -> schain s = [] ->
     finish s = Next (mkstate MExec (Some (vfn sv)) (vpc sv) (vcalls sv) (vchain sv) (str s) (sraised s) rest).
 Proof. exact callback_returns_to_caller. Qed.
+
+(* (2c) VM.Run itself, whatever the context of the run (none, live, cancelled
+   or expired): the error of runFunc that comes from env.Stop(err) makes Run
+   return err itself, the one of env.Fatal(v) makes Run panic with v, a
+   PanicError is returned as it is (the error of the output when its message is
+   a failed write), nil gives nil.  run_action is read from the decision table
+   that gofacts obtains by executing the statements of VM.Run (Facts_vmrun): a
+   change of VM.Run that looks at the context first changes the table and
+   breaks this obligation. *)
+Theorem C12_run_stop_fatal_any_context :
+  forall ctx, In ctx ctx_states ->
+    run_action 3 ctx = Some 2%N /\ run_action 2 ctx = Some 4%N /\ run_action 0 ctx = Some 1%N /\
+    run_action 1 ctx = Some 3%N /\ run_action 5 ctx = Some 6%N.
+Proof. exact vmrun_documented. Qed.
+Print Assumptions C12_run_stop_fatal_any_context.
 
 (* (3) The chain Run returns: the next links go from the newest panic to the
    oldest (strictly decreasing serial numbers of raising). *)
